@@ -267,5 +267,55 @@ theorem dry_exmodCli (cfg : Cfg) (env : Env) (h : cfg.dryRun = true) : AllEff OK
   unfold exmodCli
   repeat (first | exact dry_exmodStr _ _ h _ _ | alleff_step)
 
+/-! ### a closed gate: the folder visit is a no-op -/
+
+theorem spec_weakenP {α} {P' : Effect → Prop} {pre : FS → Prop} {m : M α} {post : α → FS → Prop}
+    (h : Spec OK pre P m post) (hp : ∀ e, P e → P' e) : Spec OK pre P' m post :=
+  fun fs hfs hit => ⟨fun e he => hp e ((h fs hfs hit).1 e he), (h fs hfs hit).2⟩
+
+theorem spec_of_allEff_true {α} {pre : FS → Prop} {m : M α} (h : AllEff OK (fun _ => True) P m) :
+    Spec OK pre P m (fun _ _ => True) := spec_conseq h (fun _ _ => trivial) (fun _ _ _ => trivial)
+
+theorem allEff_singleFolder_closed (r : Run) (mn : Str) (d o : Path)
+    (h : proceed r.cfg.blacklist r.cfg.whitelist (modPathOf r.moduleRoot mn) = false) :
+    AllEff OK I P (singleFolder r mn d o) := by
+  unfold singleFolder
+  simp only [h, Bool.not_false, if_true]
+  exact allEff_pure _
+
+/-- with the top folder's gate closed, no recursion and no sqlalchemy submodule, `exmod(<str>)` logs nothing after the
+    announcement of the output directory -/
+theorem gated_exmodStr (cfg : Cfg) (env : Env) (emit : EmitKind) (announce : Bool) (fs0 : FS)
+    (hclosed : proceed cfg.blacklist cfg.whitelist (modPathOf (rpartition cfg.module ['.']).1 cfg.module) = false)
+    (hrec : cfg.recursive = false) (hsql : (emit.isSql && cfg.sqlSub) = false) :
+    ∀ e ∈ (exmodStr cfg env emit announce fs0).trace, e ∈ (announceOut cfg fs0).trace := by
+  have hann : Spec (fun _ => True) (fun fs => fs = fs0) (fun e => e ∈ (announceOut cfg fs0).trace) (announceOut cfg)
+      (fun _ _ => True) := by
+    intro fs hfs _
+    rw [hfs]
+    exact ⟨fun e he => he, fun _ _ => trivial⟩
+  have key : Spec (fun _ => True) (fun fs => fs = fs0) (fun e => e ∈ (announceOut cfg fs0).trace)
+      (exmodStr cfg env emit announce) (fun _ _ => True) := by
+    unfold exmodStr
+    split
+    rename_i moduleRoot _x submodule heq
+    have hroot : moduleRoot = (rpartition cfg.module ['.']).1 := by rw [heq]
+    simp only [hrec, hsql, Bool.false_and, Bool.false_eq_true, if_false]
+    have hsf : ∀ mrd, AllEff (fun _ => True) (fun _ => True) (fun _ => False)
+        (singleFolder { cfg := cfg, env := env, emit := emit, moduleRoot := moduleRoot,
+                        newModuleName := newModuleNameOf cfg moduleRoot } cfg.module mrd cfg.out) :=
+      fun mrd => allEff_singleFolder_closed _ _ _ _ (by rw [hroot]; exact hclosed)
+    apply spec_ite
+    · intro _
+      refine spec_bind (mid := fun _ _ => True) hann (fun _ => ?_)
+      refine spec_weakenP (P := fun _ => False) ?_ (fun _ h => h.elim)
+      apply spec_of_allEff_true
+      repeat (first | exact hsf _ | exact allEff_findModuleFilepath _ _ _ _ | alleff_step)
+    · intro _
+      refine spec_weakenP (P := fun _ => False) ?_ (fun _ h => h.elim)
+      apply spec_of_allEff_true
+      repeat (first | exact hsf _ | exact allEff_findModuleFilepath _ _ _ _ | alleff_step)
+  exact (key fs0 rfl (fun _ _ => trivial)).1
+
 end
 end Exmod
